@@ -182,6 +182,129 @@ theorem fromBar_system (t : Tuning) (b : TBar) (width : Int) (ls : List Line) (h
             rw [List.filter_append, filter_digit_rep_dash]
             decide
 
+/-- the step shared by `from_Track` and `from_Composition`: a rendered bar (any quarter-mark line `top`, string lines `L` as
+    `from_Bar` makes them) is either glued to the last system or opens a new one; the system structure is kept -/
+theorem sys_step_sys (t : Tuning) (names : List Str) (hl : labels t = .ok names)
+    (hfit : ∀ x ∈ names, (x.length : Int) + 1 ≤ (maxStr names).length + 3) (hnd : ∀ x ∈ names, nodigit x)
+    (start : List Line) (pad : Int) (hs : beginTrack t pad = .ok start)
+    (R : List Line) (done : List TBar) (b : TBar) (systems : List Sys) (hR : R = render systems)
+    (hok : ∀ s ∈ systems, SysOK t start s.2.2 s.2.1) (hdone : systems.flatMap (·.2.2) = done)
+    (top : Line) (L : List Line) (gs : List (Nat → Line)) (close : Line)
+    (hL : L.reverse = appendSegs start (fun i => cellsOn gs i ++ close)) (hdec : List.Forall₂ (Decodes t) b.entries gs)
+    (hclose : nodigit close) (c : Prop) [Decidable c] (R' : List Line)
+    (hR' : (if c ∧ R ≠ [] then glue R (top :: L) (find2 ((top :: L).getD 1 []) + 2) else R ++ [[], []] ++ top :: L) = R') :
+    ∃ systems' : List Sys, R' = render systems' ∧ (∀ s ∈ systems', SysOK t start s.2.2 s.2.1) ∧
+      systems'.flatMap (·.2.2) = done ++ [b] ∧
+      systems'.length = (if c ∧ R ≠ [] then systems.length else systems.length + 1) := by
+  have hseg : SegOK t b ⟨fun _ => [], gs, close⟩ := ⟨hdec, hclose, fun _ => rfl⟩
+  have hnew : SysOK t start [b] L := by
+    refine ⟨[⟨fun _ => [], gs, close⟩], List.Forall₂.cons hseg List.Forall₂.nil, ?_⟩
+    rw [hL]; congr 1; funext i; simp [BarSeg.text]
+  by_cases hc : c ∧ R ≠ []
+  · -- glued to the last system
+    simp only [hc, and_self, if_true] at hR'
+    have hsne : systems ≠ [] := render_ne_nil systems (by rw [← hR]; exact hc.2)
+    obtain ⟨init, last, rfl⟩ : ∃ init last, systems = init ++ [last] :=
+      ⟨systems.dropLast, systems.getLast hsne, (List.dropLast_concat_getLast hsne).symm⟩
+    obtain ⟨ltop, lL, lbars⟩ := last
+    obtain ⟨segs, hsegs, hlL⟩ := hok (ltop, lL, lbars) (by simp)
+    have hlen1 : lL.length = start.length := by
+      have := congrArg List.length hlL; simpa [appendSegs] using this
+    have hlen2 : L.length = start.length := by
+      have := congrArg List.length hL; simpa [appendSegs] using this
+    -- where the cut falls: inside the label columns
+    obtain ⟨hstlen, hshape⟩ := beginTrack_shape t _ names start hl hnd hs
+    have hequal := beginTrack_lengths t _ names start hl hfit hs
+    set B : Nat := (find2 ((top :: L).getD 1 []) + 2).toNat with hBdef
+    have hB : ∀ ln ∈ start, B ≤ ln.length := by
+      intro ln hln
+      by_cases hn : start = []
+      · rw [hn] at hln; cases hln
+      · -- the first string line of the bar is the LAST start line followed by cells
+        have hlast : ∃ lastS X, (top :: L).getD 1 [] = lastS ++ X ∧ lastS ∈ start := by
+          have hLne : L ≠ [] := by intro e; rw [e] at hlen2; simp at hlen2; exact hn (List.length_eq_zero_iff.1 hlen2.symm)
+          obtain ⟨x0, xs, hx0⟩ := List.exists_cons_of_ne_nil hLne
+          have hrev : L.reverse.getLast? = some x0 := by rw [hx0]; simp
+          rw [hL] at hrev
+          have hk : start.length - 1 < start.length := by
+            have : 0 < start.length := List.length_pos_iff.2 hn
+            omega
+          have hget : (appendSegs start (fun i => cellsOn gs i ++ close)).getLast? =
+              some (start[start.length - 1] ++ (cellsOn gs (start.length - 1) ++ close)) := by
+            rw [List.getLast?_eq_getElem?]
+            simp [appendSegs, List.getElem?_mapIdx, List.getElem?_eq_getElem hk]
+          rw [hget] at hrev
+          refine ⟨start[start.length - 1], cellsOn gs (start.length - 1) ++ close, ?_, List.getElem_mem hk⟩
+          simp only [hx0, List.getD_cons_succ, List.getD_cons_zero]
+          exact (Option.some.inj hrev).symm
+        obtain ⟨lastS, X, hX, hmem⟩ := hlast
+        obtain ⟨⟨pre, rest, hpr⟩, _⟩ := hshape lastS hmem
+        have hf := find2_le pre (rest ++ X)
+        have e : (top :: L).getD 1 [] = pre ++ '|' :: '|' :: (rest ++ X) := by rw [hX, hpr]; simp
+        rw [e] at hBdef
+        have h1 := hequal ln hln
+        have h2 := hequal lastS hmem
+        have h3 : lastS.length = pre.length + 2 + rest.length := by rw [hpr]; simp; omega
+        omega
+    have hglue : R' = render init ++ ([[], []] ++ (ltop ++ top.drop B) ::
+        ((List.zip lL L).map fun (a, b) => a ++ b.drop B)) := by
+      rw [← hR', hR, render_snoc]
+      have e : render init ++ ([[], []] ++ ltop :: lL) = (render init ++ [[], []]) ++ (ltop :: lL) := by simp
+      rw [e, glue_last _ _ _ _ (by simp [hlen1, hlen2])]
+      simp [hBdef, List.append_assoc]
+    refine ⟨init ++ [(ltop ++ top.drop B, (List.zip lL L).map (fun (a, b) => a ++ b.drop B), lbars ++ [b])], ?_, ?_, ?_, by simp [hc]⟩
+    · rw [hglue, render_snoc]
+    · intro s hs'
+      rcases List.mem_append.1 hs' with hs' | hs'
+      · exact hok s (by simp [hs'])
+      · simp only [List.mem_singleton] at hs'
+        subst hs'
+        refine ⟨segs ++ [⟨fun i => (start.getD i []).drop B, gs, close⟩], ?_, ?_⟩
+        · refine List.rel_append hsegs (List.Forall₂.cons ⟨hdec, hclose, ?_⟩ List.Forall₂.nil)
+          show ∀ i, nodigit ((start.getD i []).drop B)
+          intro i
+          apply nodigit_drop
+          by_cases hi : i < start.length
+          · have : start.getD i [] = start[i] := by simp [List.getD_eq_getElem?_getD, List.getElem?_eq_getElem hi]
+            rw [this]; exact (hshape _ (List.getElem_mem hi)).2
+          · have hge : start.length ≤ i := by omega
+            have : start.getD i [] = [] := by simp [List.getD_eq_getElem?_getD, List.getElem?_eq_none hge]
+            rw [this]; rfl
+        · -- reverse of a zip of equally long lists
+          have hrevzip : ((List.zip lL L).map fun (a, b) => a ++ b.drop B).reverse =
+              (List.zip lL.reverse L.reverse).map fun (a, b) => a ++ b.drop B := by
+            exact map_zip_rev (fun a b => a ++ b.drop B) lL L (by rw [hlen1, hlen2])
+          simp only []
+          rw [hrevzip, hlL, hL, zip_appendSegs start _ _ B hB]
+          congr 1
+          funext i
+          simp [BarSeg.text, List.append_assoc]
+    · rw [← hdone]; simp [List.flatMap_append]
+  · -- a new system
+    simp only [hc, if_false] at hR'
+    refine ⟨systems ++ [(top, L, [b])], ?_, ?_, ?_, by simp [hc]⟩
+    · rw [← hR', hR, render_snoc]; simp
+    · intro s hs'
+      rcases List.mem_append.1 hs' with hs' | hs'
+      · exact hok s hs'
+      · simp only [List.mem_singleton] at hs'; subst hs'; exact hnew
+    · rw [← hdone]; simp [List.flatMap_append]
+
+
+theorem sys_step (t : Tuning) (names : List Str) (hl : labels t = .ok names)
+    (hfit : ∀ x ∈ names, (x.length : Int) + 1 ≤ (maxStr names).length + 3) (hnd : ∀ x ∈ names, nodigit x)
+    (start : List Line) (pad : Int) (hs : beginTrack t pad = .ok start)
+    (R : List Line) (done : List TBar) (b : TBar) (hinv : Inv t start R done)
+    (top : Line) (L : List Line) (gs : List (Nat → Line)) (close : Line)
+    (hL : L.reverse = appendSegs start (fun i => cellsOn gs i ++ close)) (hdec : List.Forall₂ (Decodes t) b.entries gs)
+    (hclose : nodigit close) (c : Prop) [Decidable c] (R' : List Line)
+    (hR' : (if c ∧ R ≠ [] then glue R (top :: L) (find2 ((top :: L).getD 1 []) + 2) else R ++ [[], []] ++ top :: L) = R') :
+    Inv t start R' (done ++ [b]) := by
+  obtain ⟨systems, hR, hok, hdone⟩ := hinv
+  obtain ⟨s', h1, h2, h3, _⟩ := sys_step_sys t names hl hfit hnd start pad hs R done b systems hR hok hdone top L gs close hL hdec
+    hclose c R' hR'
+  exact ⟨s', h1, h2, h3⟩
+
 /-- the step of `from_Track`'s loop keeps the system structure -/
 theorem track_step (t : Tuning) (names : List Str) (hl : labels t = .ok names)
     (hfit : ∀ x ∈ names, (x.length : Int) + 1 ≤ (maxStr names).length + 3) (hnd : ∀ x ∈ names, nodigit x)
@@ -208,100 +331,8 @@ theorem track_step (t : Tuning) (names : List Str) (hl : labels t = .ok names)
     subst hp2
     have hss : start2 = start := by rw [hs] at hs2; exact (Except.ok.inj hs2).symm
     subst hss
-    obtain ⟨systems, hR, hok, hdone⟩ := hinv
-    have hseg : SegOK t b ⟨fun _ => [], gs, close⟩ := ⟨hdec, hclose, fun _ => rfl⟩
-    have hnew : SysOK t start2 [b] L := by
-      refine ⟨[⟨fun _ => [], gs, close⟩], List.Forall₂.cons hseg List.Forall₂.nil, ?_⟩
-      rw [hL]; congr 1; funext i; simp [BarSeg.text]
-    by_cases hc : ((((top :: L).headD []).length : Int) + lastlen) - (find2 ((top :: L).getD 1 []) + 2) < maxwidth ∧ R ≠ []
-    · -- glued to the last system
-      simp only [hc, and_self, if_true] at hR'
-      have hsne : systems ≠ [] := render_ne_nil systems (by rw [← hR]; exact hc.2)
-      obtain ⟨init, last, rfl⟩ : ∃ init last, systems = init ++ [last] :=
-        ⟨systems.dropLast, systems.getLast hsne, (List.dropLast_concat_getLast hsne).symm⟩
-      obtain ⟨ltop, lL, lbars⟩ := last
-      obtain ⟨segs, hsegs, hlL⟩ := hok (ltop, lL, lbars) (by simp)
-      have hlen1 : lL.length = start2.length := by
-        have := congrArg List.length hlL; simpa [appendSegs] using this
-      have hlen2 : L.length = start2.length := by
-        have := congrArg List.length hL; simpa [appendSegs] using this
-      -- where the cut falls: inside the label columns
-      obtain ⟨hstlen, hshape⟩ := beginTrack_shape t _ names start2 hl hnd hs
-      have hequal := beginTrack_lengths t _ names start2 hl hfit hs
-      set B : Nat := (find2 ((top :: L).getD 1 []) + 2).toNat with hBdef
-      have hB : ∀ ln ∈ start2, B ≤ ln.length := by
-        intro ln hln
-        by_cases hn : start2 = []
-        · rw [hn] at hln; cases hln
-        · -- the first string line of the bar is the LAST start line followed by cells
-          have hlast : ∃ lastS X, (top :: L).getD 1 [] = lastS ++ X ∧ lastS ∈ start2 := by
-            have hLne : L ≠ [] := by intro e; rw [e] at hlen2; simp at hlen2; exact hn (List.length_eq_zero_iff.1 hlen2.symm)
-            obtain ⟨x0, xs, hx0⟩ := List.exists_cons_of_ne_nil hLne
-            have hrev : L.reverse.getLast? = some x0 := by rw [hx0]; simp
-            rw [hL] at hrev
-            have hk : start2.length - 1 < start2.length := by
-              have : 0 < start2.length := List.length_pos_iff.2 hn
-              omega
-            have hget : (appendSegs start2 (fun i => cellsOn gs i ++ close)).getLast? =
-                some (start2[start2.length - 1] ++ (cellsOn gs (start2.length - 1) ++ close)) := by
-              rw [List.getLast?_eq_getElem?]
-              simp [appendSegs, List.getElem?_mapIdx, List.getElem?_eq_getElem hk]
-            rw [hget] at hrev
-            refine ⟨start2[start2.length - 1], cellsOn gs (start2.length - 1) ++ close, ?_, List.getElem_mem hk⟩
-            simp only [hx0, List.getD_cons_succ, List.getD_cons_zero]
-            exact (Option.some.inj hrev).symm
-          obtain ⟨lastS, X, hX, hmem⟩ := hlast
-          obtain ⟨⟨pre, rest, hpr⟩, _⟩ := hshape lastS hmem
-          have hf := find2_le pre (rest ++ X)
-          have e : (top :: L).getD 1 [] = pre ++ '|' :: '|' :: (rest ++ X) := by rw [hX, hpr]; simp
-          rw [e] at hBdef
-          have h1 := hequal ln hln
-          have h2 := hequal lastS hmem
-          have h3 : lastS.length = pre.length + 2 + rest.length := by rw [hpr]; simp; omega
-          omega
-      have hglue : R' = render init ++ ([[], []] ++ (ltop ++ top.drop B) ::
-          ((List.zip lL L).map fun (a, b) => a ++ b.drop B)) := by
-        rw [← hR', hR, render_snoc]
-        have e : render init ++ ([[], []] ++ ltop :: lL) = (render init ++ [[], []]) ++ (ltop :: lL) := by simp
-        rw [e, glue_last _ _ _ _ (by simp [hlen1, hlen2])]
-        simp [hBdef, List.append_assoc]
-      refine ⟨init ++ [(ltop ++ top.drop B, (List.zip lL L).map (fun (a, b) => a ++ b.drop B), lbars ++ [b])], ?_, ?_, ?_⟩
-      · rw [hglue, render_snoc]
-      · intro s hs'
-        rcases List.mem_append.1 hs' with hs' | hs'
-        · exact hok s (by simp [hs'])
-        · simp only [List.mem_singleton] at hs'
-          subst hs'
-          refine ⟨segs ++ [⟨fun i => (start2.getD i []).drop B, gs, close⟩], ?_, ?_⟩
-          · refine List.rel_append hsegs (List.Forall₂.cons ⟨hdec, hclose, ?_⟩ List.Forall₂.nil)
-            show ∀ i, nodigit ((start2.getD i []).drop B)
-            intro i
-            apply nodigit_drop
-            by_cases hi : i < start2.length
-            · have : start2.getD i [] = start2[i] := by simp [List.getD_eq_getElem?_getD, List.getElem?_eq_getElem hi]
-              rw [this]; exact (hshape _ (List.getElem_mem hi)).2
-            · have hge : start2.length ≤ i := by omega
-              have : start2.getD i [] = [] := by simp [List.getD_eq_getElem?_getD, List.getElem?_eq_none hge]
-              rw [this]; rfl
-          · -- reverse of a zip of equally long lists
-            have hrevzip : ((List.zip lL L).map fun (a, b) => a ++ b.drop B).reverse =
-                (List.zip lL.reverse L.reverse).map fun (a, b) => a ++ b.drop B := by
-              exact map_zip_rev (fun a b => a ++ b.drop B) lL L (by rw [hlen1, hlen2])
-            simp only []
-            rw [hrevzip, hlL, hL, zip_appendSegs start2 _ _ B hB]
-            congr 1
-            funext i
-            simp [BarSeg.text, List.append_assoc]
-      · rw [← hdone]; simp [List.flatMap_append]
-    · -- a new system
-      simp only [hc, if_false] at hR'
-      refine ⟨systems ++ [(top, L, [b])], ?_, ?_, ?_⟩
-      · rw [← hR', hR, render_snoc]; simp
-      · intro s hs'
-        rcases List.mem_append.1 hs' with hs' | hs'
-        · exact hok s hs'
-        · simp only [List.mem_singleton] at hs'; subst hs'; exact hnew
-      · rw [← hdone]; simp [List.flatMap_append]
+    exact sys_step t names hl hfit hnd start2 _ hs R done b hinv top L gs close hL hdec hclose
+      (((((top :: L).headD []).length : Int) + lastlen) - (find2 ((top :: L).getD 1 []) + 2) < maxwidth) R' hR'
 
 /-- **from_Track decodes**: the result is a sequence of systems (two empty lines, the quarter-mark line, the string lines);
     every bar of the track is shown in exactly one system, in order; in a system string `i` (from the lowest) reads: label
